@@ -108,9 +108,15 @@ Lemma whole_columns_transposed :
 Proof. reflexivity. Qed.
 
 (* an unknown sheet title is rejected, never resolved to another sheet *)
-Lemma unknown_sheet_rejected ts n c r : title_index ts n = Exc KeyError ->
-  handle ts {| a_t := TName n; a_c := c; a_r := r |} = Exc KeyError.
-Proof. intros H. unfold handle. cbn [a_t]. rewrite H. reflexivity. Qed.
+Lemma title_index_unknown ts n : (forall i, ~ In (n, i) ts) -> title_index ts n = Exc E2PyclCell.
+Proof.
+  induction ts as [|[k j] ts IH]; intros H; simpl; [reflexivity|]. destruct (String.eqb k n) eqn:E.
+  - apply String.eqb_eq in E. subst k. exfalso. apply (H j). left. reflexivity.
+  - apply IH. intros i Hi. apply (H i). right. exact Hi.
+Qed.
+Lemma unknown_sheet_rejected ts n c r : (forall i, ~ In (n, i) ts) ->
+  handle ts {| a_t := TName n; a_c := c; a_r := r |} = Exc E2PyclCell.
+Proof. intros H. unfold handle. cbn [a_t]. rewrite (title_index_unknown ts n H). reflexivity. Qed.
 Lemma title_index_sound ts n i : title_index ts n = Ok i -> In (n, i) ts.
 Proof.
   induction ts as [|[k j] ts IH]; simpl; [discriminate|]. destruct (String.eqb k n) eqn:E.
